@@ -6,6 +6,7 @@ mod fam_canary;
 mod fam_cipher;
 mod fam_clicodec;
 mod fam_clihostile;
+mod fam_clitrunc;
 mod fam_codec;
 mod fam_edit;
 mod fam_extract;
@@ -74,6 +75,7 @@ fn main() {
         "list" => fam_list::list(&mut ctx),
         "roundtrip" => fam_round::roundtrip(&mut ctx),
         "foreign" => fam_foreign::foreign(&mut ctx),
+        "cli-truncate" => fam_clitrunc::cli_truncate(&mut ctx),
         "cli-hostile" => fam_clihostile::cli_hostile(&mut ctx),
         "sched" => fam_sched::sched(&mut ctx),
         "fault" => fam_fault::fault(&mut ctx),
